@@ -75,6 +75,7 @@ def make_rig(cfg, transport='udp', fill=None, T=1, R=0, ka=False, ctx=None, keep
     dev = ModbusDevice(unit=0xF7 if fam == 'ET' else 0x7F, **({'fill': fill} if fill else {}))
     dev.mbap_length = cfg.get('mbap_length', 'correct')
     dev.refuse_mode = cfg.get('refuse_mode', 'touch')
+    dev.refused_requests = set(tuple(x) for x in cfg.get('refused_requests', ()))
     if fam == 'ET':
         et_device_info(dev, serial=serial_for(cfg['tag']), rated=cfg['power'], **cfg.get('versions', {}))
         dev.rf.set(35184, cfg['battery_mode'])
